@@ -1,9 +1,11 @@
 package props
 
 import (
+	"bytes"
 	stdjson "encoding/json"
 	"fmt"
 	"strings"
+	"unicode/utf8"
 
 	"github.com/gabriel-vasile/mimetype"
 
@@ -138,6 +140,12 @@ func c08JudgeDoc(c *fw.Ctx, t *lib.Tree, kind string, d []byte, limits []uint32,
 				c.Count("recognised_whole", 1)
 			}
 		case "exception":
+			if ok, sig := exceptionJustified(why, lib.Header(d, L)); !ok {
+				c.Violate("json-not-recognised", key,
+					fmt.Sprintf("valid JSON document reported as the higher-priority format %s, whose signature the examined bytes do not carry (%s); result %s; doc %s limit %d", why, sig, ch, fw.Quote(d, 100), L),
+					fw.MkInCase(kind, d, L, entry, "higher-priority format claimed without its signature"))
+				break
+			}
 			c.Count("exception_higher_priority_format", 1)
 			c.SetAdd("exception_formats", why)
 		default:
@@ -197,6 +205,53 @@ func c08Run(c *fw.Ctx, b fw.Batch) {
 				continue
 			}
 			c08JudgeDoc(c, t, "random", d, allLimits(d), true)
+		}
+	case "dictionary":
+		// every printable literal of the tree's source as a string value / key, placed so that it
+		// starts at offsets 2 … 40, 56 … 64 and 124 … 132 of the document (where offset-based
+		// signatures look): JSON stays JSON unless the bytes carry a pinned higher-priority signature
+		var lits [][]byte
+		for _, lit := range lib.SourceDictionary() {
+			if len(lit) < 2 || len(lit) > 40 || !utf8.Valid(lit) {
+				continue
+			}
+			okc := true
+			for _, ch := range lit {
+				if ch < 0x20 || ch == '"' || ch == '\\' || ch == 0x7f {
+					okc = false
+				}
+			}
+			if okc {
+				lits = append(lits, lit)
+			}
+		}
+		lo, hi := split(len(lits), b.Idx, b.Of)
+		var offs []int
+		for o := 2; o <= 40; o++ {
+			offs = append(offs, o)
+		}
+		offs = append(offs, 56, 57, 58, 59, 60, 61, 62, 63, 64, 124, 125, 126, 127, 128, 129, 130, 131, 132, 256, 257, 258)
+		for _, lit := range lits[lo:hi] {
+			for _, o := range offs {
+				pads := []string{"a"}
+				if o <= 12 { // the bytes in front of an early signature are often a size / version field
+					pads = []string{"a", " ", "d", "0", "\u0000"[:0] + "~"}
+				}
+				for shape := 0; shape < 2*len(pads); shape++ {
+					var d []byte
+					pad := []byte(pads[shape/2])
+					if shape%2 == 0 {
+						d = append(append(append([]byte(`["`), bytes.Repeat(pad, o-2)...), lit...), `", 1]`...)
+					} else {
+						d = append(append(append([]byte(`{"`), bytes.Repeat(pad, o-2)...), lit...), `":{"x":[true]}}`...)
+					}
+					if !stdjson.Valid(d) {
+						continue
+					}
+					c08JudgeDoc(c, t, "dictionary", d, []uint32{0, uint32(len(d)), uint32(len(d) + 1), 3072, uint32(o + len(lit)), uint32(o + len(lit) + 1)}, false)
+					c.Count("dictionary_documents", 1)
+				}
+			}
 		}
 	case "long":
 		// long documents: cut by the default limit and at sampled points
@@ -288,7 +343,7 @@ func init() {
 			"non-trivial = a truncated detection with the cut strictly inside the document; distinct = distinct (token class two bytes before the cut, class of the last examined byte, class of the first unexamined byte) triples, plus (shape, depth) ladder points.",
 		Assumptions: []string{
 			"encoding/json.Valid is the definition of RFC 8259 well-formedness",
-			"the exception clause is decided with the snapshot's sibling order; that the higher-priority node genuinely matched is C03's concern",
+			"the exception clause: the reported format must precede application/json in the pinned priority order AND the examined bytes must carry that format's signature as pinned at the time of the statement (svg, msaccess, gimp: the only ones the generator can trigger)",
 		},
 		Plan: func(tier string, seed int64) []fw.Batch {
 			n, nl := 12000, 40
@@ -300,6 +355,7 @@ func init() {
 			bs = append(bs, batches("random", 12, n, 1800)...)
 			bs = append(bs, batches("long", 4, nl, 1800)...)
 			bs = append(bs, batches("ladder", 8, 0, 1800)...)
+			bs = append(bs, batches("dictionary", 6, 0, 1800)...)
 			return bs
 		},
 		Run: c08Run,
